@@ -348,7 +348,13 @@ func (in *inst) check(r *vs.Result) []string {
 			return
 		}
 		if in.c.Refilter {
-			return // its stream also carries the refilter's own events; judged through its cache above
+			// its stream also carries the refilter's own events (its cache is judged in run); what can be said about the
+			// stream: events are offered one by one, so the buffer is full at the end if more were due than it holds
+			offered := 3 * in.c.K // K creates, K deletes (Refilter to accept-none), K creates (back to accept-all)
+			if n.FSub != nil && offered >= in.c.buf() && len(got) != in.c.buf() {
+				msgs = append(msgs, fmt.Sprintf("stalled consumer lost events within its buffer | %s (buffer %d): %d events were due (stream + two refilters), it drained %d: %v", n.Path, in.c.buf(), offered, len(got), got))
+			}
+			return
 		}
 		// stalled: an in-order subsequence of the published sequence, at least min(K, bufsiz) long
 		j := 0
@@ -561,6 +567,8 @@ func Property() runner.Property {
 			}
 			out = append(out, scenario(cfg{Name: "fsub,sub+refilter", Tree: fs, Stalled: st("0:fsub"), K: 3, Refilter: true, Mode: "S2", Bound: 2}))
 			out = append(out, scenario(cfg{Name: "fsub,sub+refilter", Tree: fs, Stalled: st("0:fsub"), K: 5, Refilter: true, Mode: "S2", Bound: 1}))
+			// a partly filled buffer (4) meets a refilter batch larger than the room left: what fits is kept
+			out = append(out, scenario(cfg{Name: "fsub,sub+refilter", Tree: fs, Stalled: st("0:fsub"), K: 3, Buf: 4, Refilter: true, Mode: "S2", Bound: 1}))
 			if tier == "thorough" {
 				for _, k := range []int{4, 6} {
 					out = append(out,
